@@ -876,7 +876,200 @@ impl<'a> Gen<'a> {
                 let qcode = |g: &Self, code: u32| -> u32 {
                     if g.single_cells.is_empty() { 0 } else { g.single_cells[code as usize % g.single_cells.len()] * 3 }
                 };
-                match self.rng.below(8) {
+                match self.rng.below(12) {
+                    11 => {
+                        // erase matches so that the pieces join into a new match, then ask again
+                        // about exactly that result with the same pattern
+                        if self.mgr[c] != 0 {
+                            return;
+                        }
+                        let x = self.single_code();
+                        let y = x + 1;
+                        let w: Vec<u32> = if self.rng.chance(2, 3) { vec![x, y] } else { vec![x, y, y] };
+                        self.push(Step::new(cl, Str).s(w.clone()));
+                        let mut pat = self.last(c);
+                        if self.rng.chance(1, 3) {
+                            self.push(Step::new(cl, Str).s(vec![y, x]));
+                            let o = self.last(c);
+                            self.push(Step::new(cl, Union).a(pat, o, 0));
+                            pat = self.last(c);
+                        }
+                        let q: Vec<u32> = w.iter().map(|&ch| qcode(self, ch)).collect();
+                        // w nested in w: the first letter, the word, the rest
+                        let mut nested = vec![q[0]];
+                        nested.extend(q.iter().copied());
+                        nested.extend(q[1..].iter().copied());
+                        if self.rng.chance(1, 3) {
+                            nested.insert(0, self.point_code());
+                        }
+                        let salt = self.rng.u32();
+                        self.push(Step::new(cl, ReplaceAll).a(pat, salt, 0).s(nested.clone()).t(vec![]));
+                        let mut t = self.cstr();
+                        if t.is_empty() {
+                            t.push(x);
+                        }
+                        let mut joined = nested.clone();
+                        // what is left after erasing the inner occurrence
+                        let inner = joined.len() - q.len() - (q.len() - 1);
+                        joined.drain(inner..inner + q.len());
+                        self.push(Step::new(cl, ReplaceAll).a(pat, salt, 0).s(joined.clone()).t(t.clone()));
+                        self.push(Step::new(cl, Replace).a(pat, salt, 0).s(joined).t(t));
+                    }
+                    10 => {
+                        // eight to ten terms created back to back; two lists that take one of
+                        // {t, complement(t)} from each, equal at both ends, different inside
+                        let n = 8 + self.rng.below(3) as usize;
+                        let mut ts: Vec<u32> = Vec::new();
+                        let mut words: Vec<Vec<u32>> = Vec::new();
+                        // (each of them must take exactly one new id: counted loops over one
+                        // class with counts nobody else uses, or distinct characters)
+                        let by_loops = (self.nsingles as usize) < n || self.rng.chance(1, 2);
+                        let k = self.ncells;
+                        let lo = self.rng.below(k as u64) as u32;
+                        let base = 7 + self.rng.below(30) as u32;
+                        let first_letter = self.single_code();
+                        let mut hx = 0;
+                        if by_loops {
+                            self.push(Step::new(cl, Range).a(lo, lo, 0));
+                            hx = self.last(c);
+                        }
+                        for i in 0..n as u32 {
+                            if by_loops {
+                                self.push(Step::new(cl, Loop).a(hx, base + i, base + i + 1));
+                                ts.push(self.last(c));
+                                words.push(vec![u32::MAX; (base + i) as usize]);
+                            } else {
+                                let w = vec![(first_letter + i) % self.nsingles.max(1)];
+                                self.push(Step::new(cl, Str).s(w.clone()));
+                                ts.push(self.last(c));
+                                words.push(w);
+                            }
+                        }
+                        let mut cs: Vec<u32> = Vec::new();
+                        for &t in &ts {
+                            self.push(Step::new(cl, Compl).a(t, 0, 0));
+                            cs.push(self.last(c));
+                        }
+                        let base_neg = self.rng.chance(1, 2);
+                        let flip = 1 + self.rng.below(n as u64 - 2) as usize;
+                        let l1: Vec<u32> = (0..n).map(|i| if base_neg { cs[i] } else { ts[i] }).collect();
+                        let mut l2 = l1.clone();
+                        l2[flip] = if base_neg { ts[flip] } else { cs[flip] };
+                        let op = if base_neg { InterList } else { UnionList };
+                        let (first, second) = if self.rng.chance(1, 2) { (l1, l2) } else { (l2, l1) };
+                        self.push(Step::new(cl, op).l(first));
+                        let r1 = self.last(c);
+                        self.push(Step::new(cl, op).l(second));
+                        let r2 = self.last(c);
+                        let qw: Vec<u32> = words[flip].iter().map(|&ch| if ch == u32::MAX { lo * 3 + 1 } else { qcode(self, ch) }).collect();
+                        let salt = self.rng.u32();
+                        for r in [r1, r2] {
+                            self.push(Step::new(cl, StrInRe).a(r, salt, 0).s(qw.clone()));
+                        }
+                        self.push(Step::new(cl, EqCheck).a(r1, r2, 0));
+                    }
+                    9 => {
+                        // a counted loop e = x^[a,b], a nested loop over it, two or more further
+                        // copies of e concatenated around it; against a separately built x^[i,j]
+                        let k = self.ncells;
+                        let lo = self.rng.below(k as u64) as u32;
+                        let hi = if self.rng.chance(1, 2) { lo } else { lo + self.rng.below(2) as u32 };
+                        self.push(Step::new(cl, Range).a(lo, hi.min(k - 1), 0));
+                        let x = self.last(c);
+                        let a = 2 + self.rng.below(2) as u32;
+                        let b = a + 1 + self.rng.below(2) as u32;
+                        self.push(Step::new(cl, Loop).a(x, a, b));
+                        let e = self.last(c);
+                        match self.rng.below(3) {
+                            0 => self.push(Step::new(cl, Star).a(e, 0, 0)),
+                            1 => self.push(Step::new(cl, Opt).a(e, 0, 0)),
+                            _ => {
+                                let d = 1 + self.rng.below(3) as u32;
+                                self.push(Step::new(cl, Loop).a(e, 0, d))
+                            }
+                        }
+                        let nested = self.last(c);
+                        self.push(Step::new(cl, Concat).a(e, nested, 0));
+                        let t = self.last(c);
+                        match self.rng.below(3) {
+                            0 => self.push(Step::new(cl, Concat).a(e, t, 0)),
+                            1 => self.push(Step::new(cl, Concat).a(t, e, 0)),
+                            _ => self.push(Step::new(cl, Exp).a(t, 2, 0)),
+                        }
+                        let s_ = self.last(c);
+                        let i = a + self.rng.below(2 * b as u64) as u32;
+                        if self.rng.chance(1, 2) {
+                            self.push(Step::new(cl, Exp).a(x, i, 0));
+                        } else {
+                            let j = i + self.rng.below(4) as u32;
+                            self.push(Step::new(cl, Loop).a(x, i, j));
+                        }
+                        let r = self.last(c);
+                        self.push(Step::new(cl, IncludedIn).a(r, s_, 0));
+                        self.push(Step::new(cl, Union).a(r, s_, 0));
+                        let u = self.last(c);
+                        let pc = lo * 3 + 1;
+                        let salt = self.rng.u32();
+                        self.push(Step::new(cl, StrInRe).a(u, salt, 0).s(vec![pc; i as usize]));
+                        self.push(Step::new(cl, IncludedIn).a(s_, r, 0));
+                    }
+                    8 => {
+                        // stars nested three to five deep, every level a word with its own head
+                        // and tail letters, a mandatory suffix at the end
+                        let ns = self.nsingles.max(1);
+                        let mut letter = self.single_code();
+                        let mut next = |g: &mut Self| -> u32 {
+                            letter = (letter + 1) % ns;
+                            let _ = g;
+                            letter
+                        };
+                        let (a, b, d, b2) = (next(self), next(self), next(self), next(self));
+                        self.push(Step::new(cl, Str).s(vec![b, b2]));
+                        let bc = self.last(c);
+                        self.push(Step::new(cl, Star).a(bc, 0, 0));
+                        let bcs = self.last(c);
+                        self.push(Step::new(cl, Char).a(a, 0, 0));
+                        let ha = self.last(c);
+                        self.push(Step::new(cl, Str).s(vec![d, d]));
+                        let dd = self.last(c);
+                        self.push(Step::new(cl, ConcatList).l(vec![ha, bcs, dd]));
+                        let mut n = self.last(c);
+                        let depth = 2 + self.rng.below(3);
+                        let mut heads: Vec<u32> = vec![a];
+                        let mut tails: Vec<u32> = vec![d];
+                        for _ in 0..depth {
+                            let (x, y) = (next(self), next(self));
+                            heads.push(x);
+                            tails.push(y);
+                            self.push(Step::new(cl, Char).a(x, 0, 0));
+                            let hx = self.last(c);
+                            self.push(Step::new(cl, Str).s(vec![y, y]));
+                            let hy = self.last(c);
+                            self.push(Step::new(cl, Star).a(n, 0, 0));
+                            let st = self.last(c);
+                            self.push(Step::new(cl, ConcatList).l(vec![hx, st, hy]));
+                            n = self.last(c);
+                        }
+                        self.push(Step::new(cl, Star).a(n, 0, 0));
+                        let st = self.last(c);
+                        let z = next(self);
+                        self.push(Step::new(cl, Char).a(z, 0, 0));
+                        let hz = self.last(c);
+                        self.push(Step::new(cl, Concat).a(st, hz, 0));
+                        let e = self.last(c);
+                        let salt = self.rng.u32();
+                        self.push(Step::new(cl, Compile).a(e, salt, 0));
+                        // a member that goes all the way in and out again
+                        let mut w: Vec<u32> = heads.iter().rev().map(|&x| qcode(self, x)).collect();
+                        for &t in &tails {
+                            w.push(qcode(self, t));
+                            w.push(qcode(self, t));
+                        }
+                        w.push(qcode(self, z));
+                        self.push(Step::new(cl, StrInRe).a(e, salt, 0).s(w.clone()));
+                        self.push(Step::new(cl, StrDeriv).a(e, 0, 0).s(w));
+                        self.push(Step::new(cl, Closure).a(e, salt % 24, 0));
+                    }
                     7 => {
                         // a wide frontier of dead chains next to one live route that passes through
                         // two spellings of the same language behind different letters
